@@ -268,7 +268,7 @@ def async_client_coding_choice():
                 return False
 
         class Conn:
-            def post(self, path, data=None, headers=None):
+            def post(self, path, data=None, headers=None, **_options):
                 sent['headers'] = dict(headers)
                 sent['body'] = data
                 return Resp()
